@@ -953,6 +953,8 @@ pub struct IoUring {
     pub(crate) flags: IoUringParamFlags,
     pub(crate) submission_queue: UringSubmissionQueue,
     pub(crate) completion_queue: UringCompletionQueue,
+    /// The completion last handed out by `get_next_cqe`, copied out of the ring (room for a 32 byte one)
+    pub(crate) reaped: [u64; 4],
 }
 
 #[expect(dead_code)]
@@ -1021,9 +1023,18 @@ impl IoUring {
             return None;
         }
         let ind = ((head & self.completion_queue.ring_mask) << shift) as usize;
-        let cqe = unsafe { self.completion_queue.entries.as_ptr().add(ind) };
-        self.completion_queue.advance(1);
-        unsafe { cqe.as_ref() }
+        unsafe {
+            let cqe = self.completion_queue.entries.as_ptr().add(ind);
+            // Moving the head gives the slot back to the kernel, which may overwrite it at any time,
+            // the entry has to be copied out before that, the caller gets the copy.
+            core::ptr::copy_nonoverlapping(
+                cqe.cast::<u64>(),
+                self.reaped.as_mut_ptr(),
+                2 << shift,
+            );
+            self.completion_queue.advance(1);
+            Some(&*self.reaped.as_ptr().cast::<IoUringCompletionQueueEntry>())
+        }
     }
 }
 
